@@ -259,7 +259,7 @@ fn multisets(kinds: usize, size: usize, f: &mut dyn FnMut(&[usize])) {
 
 pub fn run(tier: Tier) -> Report {
     let rep = Report::new("C17", tier);
-    rep.set_rule("every multiset of <= K stream items over Q queries x T tracks x distances {.25,.5,1,2,None} (quick: 2x2, K=4; thorough: 3x3 K=4 and 2x2 K=6), plus streams in which queries and tracks share ONE id space {1,2,3} (every ordered pair q != t x distances {.25,.5,1}, K=4 quick / 5 thorough), plus streams of similarity-like distances {-.9,-.5,-.2,.25} (2x2, K=4 quick / 5 thorough; most of them hold negative distances only; also max_distance -.5 / -.3 / -.1), every permutation of streams of <= 4 items (rotations, reversal and adjacent transpositions of the canonical order for 5-6 items), N in {1,2,3}, min_votes in {1,2}, max_distance in {.5,.75,1,1.5,2,10} (three of them equal to a distance of the menu: 'not exceeding' is decided at equality); TopN and BestFit judged against the counting rules (also on streams with 1..40 tracks per query, N up to 10), results of tie-free streams required identical across orders; VisualVoting and Hungarian voting judged structurally (Hungarian: weights {absent, 0 (gated out, the query still appears), .2, .5, .9}; plus 2x2 matrices over weights 5 and 14 millionths apart in every arrival order); TopN / BestFit streams whose distances differ in the last bits of an f32 (weights 2e-7 apart) in every order; Hungarian: every 2x3 matrix over {absent,.2,.5,.9} on a thread where calls with a zero id in the stream have failed before. Non-trivial = at least two items.");
+    rep.set_rule("every multiset of <= K stream items over Q queries x T tracks x distances {.25,.5,1,2,None} (quick: 2x2, K=4; thorough: 3x3 K=4 and 2x2 K=6), plus streams in which queries and tracks share ONE id space {1,2,3} (every ordered pair q != t x distances {.25,.5,1}, K=4 quick / 5 thorough), plus streams whose ids do not fit in 32 bits (queries 5e9 + q, tracks 7 + t * 2^32), plus streams of similarity-like distances {-.9,-.5,-.2,.25} (2x2, K=4 quick / 5 thorough; most of them hold negative distances only; also max_distance -.5 / -.3 / -.1), every permutation of streams of <= 4 items (rotations, reversal and adjacent transpositions of the canonical order for 5-6 items), N in {1,2,3}, min_votes in {1,2}, max_distance in {.5,.75,1,1.5,2,10} (three of them equal to a distance of the menu: 'not exceeding' is decided at equality); TopN and BestFit judged against the counting rules (also on streams with 1..40 tracks per query, N up to 10), results of tie-free streams required identical across orders; VisualVoting and Hungarian voting judged structurally (Hungarian: weights {absent, 0 (gated out, the query still appears), .2, .5, .9}; plus 2x2 matrices over weights 5 and 14 millionths apart in every arrival order); TopN / BestFit streams whose distances differ in the last bits of an f32 (weights 2e-7 apart) in every order; Hungarian: every 2x3 matrix over {absent,.2,.5,.9} on a thread where calls with a zero id in the stream have failed before. Non-trivial = at least two items.");
     let dmenu: Vec<Option<f32>> = vec![Some(0.25), Some(0.5), Some(1.0), Some(2.0), None];
     let params: Vec<(usize, usize, f32)> = {
         let mut p = vec![];
@@ -280,9 +280,12 @@ pub fn run(tier: Tier) -> Report {
     // a query's own id is also some other query's candidate track); pairs of a track with itself do not occur
     // the last flag selects a menu of similarity-like distances (cosine: values in [-1, 1]): three negative ones and
     // one positive, so that most streams hold negative distances only
-    let configs: Vec<(usize, usize, usize, bool, bool)> = tier.pick(vec![(2, 2, 4, false, false), (3, 3, 4, true, false), (2, 2, 4, false, true)], vec![(3, 3, 4, false, false), (2, 2, 6, false, false), (2, 3, 5, false, false), (3, 3, 5, true, false), (2, 2, 5, false, true), (3, 2, 4, false, true)]);
+    // a 'signed' value of 2 selects ids that do not fit in 32 bits instead (queries 5e9 + q, tracks 7 + t * 2^32: ids are u64, the
+    // visual trackers use random ones) with the ordinary distance menu
+    let configs: Vec<(usize, usize, usize, bool, u8)> = tier.pick(vec![(2, 2, 4, false, 0), (3, 3, 4, true, 0), (2, 2, 4, false, 1), (2, 3, 3, false, 2)], vec![(3, 3, 4, false, 0), (2, 2, 6, false, 0), (2, 3, 5, false, 0), (3, 3, 5, true, 0), (2, 2, 5, false, 1), (3, 2, 4, false, 1), (2, 3, 4, false, 2)]);
     let signed_menu: Vec<Option<f32>> = vec![Some(-0.9), Some(-0.5), Some(-0.2), Some(0.25)];
-    for (nq, nt, kmax, shared, signed) in configs {
+    for (nq, nt, kmax, shared, mode) in configs {
+        let signed = mode == 1;
         let kinds: Vec<Item> = {
             let mut k = vec![];
             for q in 0..nq {
@@ -296,6 +299,10 @@ pub fn run(tier: Tier) -> Report {
                         continue;
                     }
                     for d in if signed { &signed_menu } else { &dmenu } {
+                        if mode == 2 {
+                            k.push((5_000_000_000 + q as u64, 7 + t as u64 * (1u64 << 32), *d));
+                            continue;
+                        }
                         k.push((QB + q as u64, TB + t as u64, *d));
                     }
                 }
